@@ -7,6 +7,8 @@
    outcome), and every stage step Stage(s, o) is enabled.  FAIL lines carry the clause.               *)
 EXTENDS Pipeline, Json, IOUtils, TLCExt
 
+PR == INSTANCE Progress WITH last <- 0, n <- 0       \* only the constant-level operator Conforms is used
+
 Recs == ndJsonDeserialize(IOEnv.TRACE_FILE)
 Fail(r, x, clause) == PrintT(<<"FAIL", r, x, clause>>)
 Chk(cond, r, x, clause) == IF cond THEN TRUE ELSE Fail(r, x, clause)
@@ -15,6 +17,9 @@ CheckRec(r) ==
   LET rec == Recs[r] IN
   /\ Chk(rec.read \in ReadOutcomes, rec.id, 0, "c18_reader_outcome_not_documented")
   /\ IF rec.read = "NoneAfterFatal" THEN Chk(rec.fatal = 1, rec.id, 0, "c18_none_without_fatal_log") ELSE TRUE
+  \* progress reports of the reader and writer calls (spec/Progress.tla): counted, not part of C18's statement
+  /\ \A k \in 1..Len(rec.progress) :
+       IF PR!Conforms(rec.progress[k].v) THEN TRUE ELSE PrintT(<<"NOTE", rec.id, "progress_not_monotone_in_unit_interval_" \o rec.progress[k].who>>)
   /\ IF rec.read # "Doc" THEN Chk(rec.stages = <<>>, rec.id, 0, "c18_stage_after_failed_read")
      ELSE \A k \in 1..Len(rec.stages) :
             Chk(rec.stages[k].o \in StageOutcomes, rec.id, k, "c18_stage_raised")
